@@ -609,6 +609,34 @@ def locate(fn, loc):
         if len(hits) <= loc[1]:
             raise Fail("%s: no `for ... in range(x)` loop" % fn.name, fn)
         return hits[loc[1]].iter.args[0]
+    if kind == "call":
+        # ("call", callee suffix, nth): the nth (source order) call whose callee text ends with the suffix, as a whole
+        # expression -- for shape pins of call sites ("which arguments, in which order")
+        hits = sorted((n for n in ast.walk(fn) if isinstance(n, ast.Call) and ast.unparse(n.func).endswith(loc[1])),
+                      key=lambda n: (n.lineno, n.col_offset))
+        if len(hits) <= loc[2]:
+            raise Fail("%s: no call #%d to %s" % (fn.name, loc[2], loc[1]), fn)
+        return hits[loc[2]]
+    if kind == "signature":
+        # ("signature",): the parameter list with annotations and defaults, for shape pins of default arguments
+        return fn.args
+    if kind == "for_iter":
+        # ("for_iter", nth): the iterable of the nth (source order) `for` statement
+        hits = sorted((n for n in ast.walk(fn) if isinstance(n, ast.For)), key=lambda n: (n.lineno, n.col_offset))
+        if len(hits) <= loc[1]:
+            raise Fail("%s: no `for` loop #%d" % (fn.name, loc[1]), fn)
+        return hits[loc[1]].iter
+    if kind == "arg_elt":
+        # ("arg_elt", callee suffix, argidx, nth, eltidx): one element of a tuple/list literal passed as an argument
+        # (nth call in source order), e.g. the port in `sendto(packet, (real_addr, port or _MDNS_PORT, *v6_flow_scope))`
+        hits = sorted((n for n in ast.walk(fn) if isinstance(n, ast.Call) and ast.unparse(n.func).endswith(loc[1])),
+                      key=lambda n: (n.lineno, n.col_offset))
+        if len(hits) <= loc[3]:
+            raise Fail("%s: no call #%d to %s" % (fn.name, loc[3], loc[1]), fn)
+        c = hits[loc[3]]
+        if len(c.args) <= loc[2] or not isinstance(c.args[loc[2]], (ast.Tuple, ast.List)) or len(c.args[loc[2]].elts) <= loc[4]:
+            raise Fail("%s: argument %d of %s is not a literal with %d elements" % (fn.name, loc[2], loc[1], loc[4] + 1), c)
+        return c.args[loc[2]].elts[loc[4]]
     raise Fail("bad locator %r" % (loc,))
 
 
